@@ -63,10 +63,10 @@ PANDAS_ONLY_ATTRS = {
     "sort_index", "sort_values", "keys", "get", "pop", "insert", "assign",
 }
 # attributes of an ndarray that a DataFrame does not have (AttributeError on DataFrame)
-NUMPY_MISSING_ON_PANDAS = {"reshape", "flatten", "ravel", "swapaxes", "tolist", "itemsize", "strides", "flat",
+NUMPY_MISSING_ON_PANDAS = {"reshape", "flatten", "ravel", "tolist", "itemsize", "strides", "flat",
                            "tobytes", "view", "fill", "nbytes", "argmax", "argmin", "argsort", "repeat", "item"}
 # exist on both, but only the ndarray meaning is the panel one (DESIGN: X.squeeze(1))
-NUMPY_MEANING_ATTRS = {"squeeze"}
+NUMPY_MEANING_ATTRS = {"squeeze", "swapaxes"}
 NEUTRAL_ATTRS = {"shape", "ndim", "size", "copy", "T", "astype", "dtype", "dtypes"}
 STATE_PRESERVING_METHODS = {"copy": (NP, PD), "reset_index": (PD,)}
 
